@@ -7,6 +7,7 @@ import (
 	"strings"
 
 	"github.com/wader/fq/internal/verifharness/hlib"
+	"github.com/wader/fq/pkg/interp"
 )
 
 // ---------------------------------------------------------------- JSON input values
@@ -50,6 +51,83 @@ func specialString(r *hlib.Rand) string {
 }
 
 var keyPool = []string{"a", "b", "c", "k", "v", "id", "name", "x", "y", "n", "s", "key", "value", "a b", "ünï", "0", "", "$x", "a.b", "😀"}
+
+// extKeys: the names fq's decode values reserve (pkg/interp/decode.go ExtKeys, taken from the running binary) plus a
+// few look-alikes. A JSON document may use them as ordinary keys — fq's fromjson returns a decode value, so a field
+// of that name shadows (or is shadowed by) the ext key: `"{\"_error\":1}" | fromjson` failed before 15b0cce6.
+var extKeys = append(append([]string{}, interp.VerifC07ExtKeys()...), "_unknown", "_", "__loc__", "_error_", "error")
+
+// extValue: a value of every JSON type for an ext key, incl. the shapes fq's own `_error` has
+func extValue(r *hlib.Rand) any {
+	switch r.Intn(12) {
+	case 0:
+		return nil
+	case 1:
+		return r.Bool()
+	case 2:
+		return genInt(r)
+	case 3:
+		return genFloat(r)
+	case 4:
+		return genString(r)
+	case 5:
+		return map[string]any{"error": "x"}
+	case 6:
+		return map[string]any{"error": genString(r), "stacktrace": []any{}}
+	case 7:
+		return []any{}
+	case 8:
+		return []any{genScalar(r), map[string]any{extKeys[r.Intn(len(extKeys))]: genScalar(r)}}
+	case 9:
+		return map[string]any{extKeys[r.Intn(len(extKeys))]: extValue(r)}
+	case 10:
+		return map[string]any{}
+	}
+	return "json"
+}
+
+// genExtDoc: a document whose keys are ext-key names, at top level and nested
+func genExtDoc(r *hlib.Rand) any {
+	m := map[string]any{}
+	n := r.Range(1, 3)
+	for i := 0; i < n; i++ {
+		m[extKeys[r.Intn(len(extKeys))]] = extValue(r)
+	}
+	switch r.Intn(5) {
+	case 0:
+		m["a"] = genScalar(r)
+	case 1:
+		return []any{m, genScalar(r)}
+	case 2:
+		return map[string]any{"k": m, "_error": extValue(r)}
+	}
+	return m
+}
+
+func hasExtKey(v any) bool {
+	switch v := v.(type) {
+	case []any:
+		for _, e := range v {
+			if hasExtKey(e) {
+				return true
+			}
+		}
+	case map[string]any:
+		for k, e := range v {
+			if strings.HasPrefix(k, "_") || hasExtKey(e) {
+				return true
+			}
+		}
+	case string:
+		// a JSON text with such a key (the `js` field, strings fed to fromjson)
+		for _, k := range extKeys {
+			if strings.HasPrefix(k, "_") && strings.Contains(v, `"`+k+`"`) {
+				return true
+			}
+		}
+	}
+	return false
+}
 
 func bigFrom(s string) *big.Int {
 	b, ok := new(big.Int).SetString(s, 10)
@@ -169,7 +247,11 @@ func genValue(r *hlib.Rand, d int) any {
 		}
 		m := map[string]any{}
 		for i := 0; i < n; i++ {
-			m[keyPool[r.Intn(len(keyPool))]] = genValue(r, d-1)
+			if r.Intn(6) == 0 {
+				m[extKeys[r.Intn(len(extKeys))]] = extValue(r)
+			} else {
+				m[keyPool[r.Intn(len(keyPool))]] = genValue(r, d-1)
+			}
 		}
 		return m
 	}
@@ -228,6 +310,16 @@ func genRich(r *hlib.Rand) any {
 	m["o"] = genValue(r, 2)
 	m["e"] = []any{[]any{}, map[string]any{}, "", []any{[]any{}}, map[string]any{"a": map[string]any{}}}[r.Intn(5)]
 	m["js"] = jsonText(genValue(r, 2))
+	switch r.Intn(4) {
+	case 0:
+		m["js"] = jsonText(genExtDoc(r))
+	case 1:
+		m["x"] = genExtDoc(r)
+	case 2:
+		m["x"] = genExtDoc(r)
+		m["js"] = jsonText(genExtDoc(r))
+		m[extKeys[r.Intn(len(extKeys))]] = extValue(r)
+	}
 	if r.Intn(3) == 0 {
 		delete(m, []string{"s", "n", "o", "recs", "f", "b"}[r.Intn(6)])
 	}
@@ -236,7 +328,9 @@ func genRich(r *hlib.Rand) any {
 
 func genInput(r *hlib.Rand) any {
 	var v any
-	switch r.Intn(10) {
+	switch r.Intn(11) {
+	case 10:
+		v = genExtDoc(r)
 	case 0:
 		v = genScalar(r)
 	case 1, 2:
